@@ -21,7 +21,7 @@ func init() {
 	register("C19", PropertyMeta{
 		Technique: "field-ownership audit of the recency order + decision tables of the directory operations + guard dominance at every victim-selection site",
 		Explanation: "Decides on mem/cache/directory_ops.go and its six victim-selection call sites: the recency order of a set is written only by DirectoryVisit (remove the way if listed, append it: a permutation stays a permutation) and DirectoryReset (identity); DirectoryFindVictim returns, while scanning in recency order, only a block that is neither locked nor being read; lookup and victim selection map an address to its set with the same function; " +
-			"at every call site, every use of the selected victim (the calls that evict, fetch into or write it) is dominated by the failing branches of `IsLocked` and `ReadCount > 0` tests on that victim, so the fallback (least recent block when all are busy) is never replaced while busy. (reader-count-steps) a block's outstanding-reader count is only ever incremented or decremented by one, never assigned.",
+			"at every call site, every use of the selected victim (the calls that evict, fetch into or write it) is dominated by the failing branches of `IsLocked` and `ReadCount > 0` tests on that victim, so the fallback (least recent block when all are busy) is never replaced while busy. (reader-count-steps) a block's outstanding-reader count is only ever incremented or decremented by one, never assigned. (tag-install-sets-pid) every function that stores a block's Tag also stores its PID.",
 		NotDecided:  "reader counts never negative; uniqueness of valid tags per process — both depend on cross-event transaction flows.",
 		Assumptions: []string{},
 	}, runC19)
@@ -310,6 +310,7 @@ func runC17(c *Ctx) {
 }
 
 func runC19(c *Ctx) {
+	tagInstallSetsPIDRule(c, "tag-install-sets-pid", 5)
 	readerCountRule(c, "reader-count-steps")
 	idempotentStallRule(c, "idempotent-stall", func(pp string) bool { return strings.HasPrefix(pp, ModPath+"/mem/cache") }, 10)
 	p := c.P
@@ -956,4 +957,49 @@ func readerCountRule(c *Ctx, rule string) {
 		}
 	}
 	c.Check(inc >= 2 && dec >= 2, rule, "<sites>", 0, itoa(inc)+" increments and "+itoa(dec)+" decrements found", "fewer reader-count updates found than confirmed by hand (write-back and write-through caches each admit and serve read hits)")
+}
+
+// tagInstallSetsPIDRule: a directory line is identified by (process, tag). Every
+// function that writes a block's Tag also writes its PID; a line installed under
+// the victim's old PID is not found by its own writer (a second copy is installed
+// on the next access) and is found by the process that owned the way before.
+func tagInstallSetsPIDRule(c *Ctx, rule string, floor int) {
+	p := c.P
+	for _, fn := range p.SrcFuncs(func(pp string) bool { return strings.HasPrefix(pp, ModPath+"/mem/cache") }) {
+		var tagBases []ssa.Value
+		var pos token.Pos
+		pidBases := map[ssa.Value]bool{}
+		for _, b := range fn.Blocks {
+			for _, in := range b.Instrs {
+				st, ok := in.(*ssa.Store)
+				if !ok {
+					continue
+				}
+				f := FieldOf(st.Addr)
+				fa, isFA := st.Addr.(*ssa.FieldAddr)
+				if f == nil || !isFA || f.Pkg() == nil || !strings.HasSuffix(f.Pkg().Path(), "/mem/cache") {
+					continue
+				}
+				switch f.Name() {
+				case "Tag":
+					tagBases = append(tagBases, fa.X)
+					pos = st.Pos()
+				case "PID":
+					pidBases[fa.X] = true
+				}
+			}
+		}
+		if len(tagBases) == 0 {
+			continue
+		}
+		ok := true
+		for _, tb := range tagBases {
+			if !pidBases[tb] {
+				ok = false
+			}
+		}
+		c.Check(ok, rule, SSAFuncKey(fn), pos, "the block's process is recorded together with its tag",
+			"the function installs a line's tag into a directory block without recording the requesting process in the block's PID: the line stays under the PID of whatever occupied the way before, so its own writer misses it on the next access (and installs a second copy in another way) while the previous owner's lookups hit it")
+	}
+	c.Floor(rule, floor)
 }
